@@ -23,6 +23,9 @@ Spec run (model independent, Fractions on the exact rationals denoted by the dou
   * general class: only the first clause (solvable-but-ray cases are counted).
   The completeness clauses are theorems of Properties/C11.lean in exact arithmetic (tolerances 0); the spec run
   checks them on the real code at its default tolerances.
+Buffers: sequences of same-size problems solved into caller-supplied, dirty `tableau=`, `basis=`, `z=` arrays
+(garbage / NaN / previous results): res.z is the buffer, inputs unchanged, bit-identical to a fresh call, exact
+oracle on the returned z, model op `lemkefb` with the prior contents (theorem `lemke_buffers_irrelevant`).
 Generators: corpus (harness/corpus/c11_*.json) first, the test-suite instances, random classes x data kinds,
 degenerate 0/+-1 problems, n in 7..10 (5%), int64 arrays, small max_iter, three tolerance settings, bad d.
 """
@@ -542,6 +545,115 @@ def run(ctx):
                 ctx.count("psd:solved")
         else:
             ctx.count("max_iter=%d" % mi)
+
+    # ---- caller-supplied buffers (tableau=, basis=, z=) and call histories --------------------------------
+    # The optional arguments are work/output arrays: pre-filled with garbage / NaN / the results of earlier
+    # solves and reused over a sequence of same-size problems (trivial -> non-trivial -> trivial ...).
+    # Checked on every call: res.z IS the supplied buffer; M, q, d bitwise unchanged; result bit-identical to a
+    # fresh call without buffers; exact LCP oracle on the returned z; model `lemkefb` (prior content on the wire).
+    def bits(a):
+        return np.ascontiguousarray(a, dtype=float).view(np.uint64).copy()
+
+    def dirty(arr, how, rs):
+        if how == "nan":
+            arr[...] = np.nan
+        elif how == "garbage":
+            arr[...] = rs.uniform(-1e6, 1e6, size=arr.shape)
+        elif how == "ones":
+            arr[...] = 1.0
+        # "keep": leave what the previous solve left there
+
+    rs = ctx.np_rng()
+    for _ in range(ctx.n(80, 1200)):
+        n = rng.choice([1, 1, 2, 2, 3, 4, 5])
+        zbuf = np.empty(n)
+        Tbuf = np.empty((n, 2 * n + 2))
+        bbuf = np.empty(n, dtype=np.int_)
+        dirty(zbuf, rng.choice(["nan", "garbage", "ones"]), rs)
+        dirty(Tbuf, rng.choice(["nan", "garbage"]), rs)
+        bbuf[:] = rs.randint(-5, 3 * n + 5, size=n)
+        for step in range(rng.randint(2, 6)):
+            cls = rng.choice(classes)
+            real = rng.choice(["int", "dyadic", "float"])
+            Mx = np.ascontiguousarray(gen_matrix(rng, n, cls, real), dtype=float)
+            d = gen_d(rng, n, real)
+            if rng.random() < 0.45:
+                q = np.array([float(rng.randint(0, 4)) for _ in range(n)])      # trivial branch
+            else:
+                q, _qm = gen_q(rng, n, d, real)
+            trivial = not bool((q < 0).any())
+            dirty(zbuf, rng.choice(["keep", "keep", "nan", "garbage"]), rs)
+            dirty(Tbuf, rng.choice(["keep", "keep", "nan"]), rs)
+            if rng.random() < 0.3:
+                bbuf[:] = rs.randint(-5, 3 * n + 5, size=n)
+            mi = None if rng.random() < 0.8 else rng.choice([1, 2, 3])
+            kw = {} if mi is None else {"max_iter": mi}
+            prior_z, prior_T, prior_b = zbuf.copy(), Tbuf.copy(), bbuf.copy()
+            M0, q0, d0 = bits(Mx), bits(q), (None if d is None else bits(d))
+            res = lcp_lemke(Mx, q, d, tableau=Tbuf, basis=bbuf, z=zbuf, **kw)
+            ctx.count("buffers:%s-branch" % ("trivial" if trivial else "pivoting"))
+            ctx.count("buffers:status=%d" % int(res.status))
+            rp = {"M": Mx.tolist(), "q": q.tolist(), "d": None if d is None else d.tolist(), "max_iter": mi,
+                  "z_buffer_before": [repr(float(v)) for v in prior_z], "z_returned": [repr(float(v)) for v in res.z],
+                  "status": int(res.status), "call": "lcp_lemke(M, q, d, tableau=T, basis=b, z=zbuf)"}
+            # 1. the returned z is the caller's buffer
+            if res.z.ctypes.data != zbuf.ctypes.data or not np.shares_memory(res.z, zbuf):
+                ctx.spec_fail("buffer_identity", "res.z is not the supplied z buffer", rp)
+            # 2. inputs untouched
+            if not (np.array_equal(bits(Mx), M0) and np.array_equal(bits(q), q0)
+                    and (d is None or np.array_equal(bits(d), d0))):
+                ctx.spec_fail("inputs_mutated", "lcp_lemke modified M, q or d", rp)
+            # 3. same answer as a call without buffers, bit for bit
+            fresh = lcp_lemke(Mx.copy(), q.copy(), None if d is None else d.copy(), **kw)
+            same = (int(fresh.status) == int(res.status) and int(fresh.num_iter) == int(res.num_iter)
+                    and bool(fresh.success) == bool(res.success)
+                    and np.array_equal(bits(fresh.z), bits(res.z)))
+            if not same:
+                ctx.spec_fail("buffer_dependence",
+                              "result depends on the prior content of the buffers: with buffers z=%s status=%d, "
+                              "without z=%s status=%d" % (res.z.tolist(), res.status, fresh.z.tolist(), fresh.status),
+                              rp)
+            # 4. exact LCP oracle on what the caller gets back
+            if res.success:
+                zz = np.array(res.z, dtype=float)
+                if not np.all(np.isfinite(zz)):
+                    ctx.spec_fail("success_solves_buffered", "success with non-finite z in the caller's buffer", rp)
+                else:
+                    Mq = [[Fraction(float(v)) for v in row] for row in Mx]
+                    qq = [Fraction(float(v)) for v in q]
+                    mz, mw, comp = lcp_residuals(Mq, qq, [Fraction(float(v)) for v in zz])
+                    scale = max(1.0, float(np.abs(Mx).max()), float(np.abs(q).max()), float(np.abs(zz).max()))
+                    eps = Fraction(ENV) * Fraction(scale)
+                    if mz < -eps or mw < -eps or comp > eps * max(1, n):
+                        ctx.spec_fail("success_solves_buffered",
+                                      "success but min z=%g, min(Mz+q)=%g, |z.(Mz+q)|=%g (caller-supplied z buffer)"
+                                      % (float(mz), float(mw), float(comp)), rp)
+                    else:
+                        ctx.count("buffers:success-verified")
+            if trivial and not np.array_equal(bits(res.z), np.zeros(n, dtype=np.uint64)):
+                ctx.spec_fail("trivial_branch_z", "q >= 0 but the returned z is not the zero vector", rp)
+            # 5. the model with the same prior buffer contents
+            dd = np.ones(n) if d is None else d
+            mi_eff = 10 ** 6 if mi is None else mi
+            if int(res.status) != 1 and mi_eff > int(res.num_iter) + 1000:
+                mi_eff = int(res.num_iter) + 1000
+            bstr = "-" if trivial else ",".join(str(int(v)) for v in bbuf)
+            impl = "success=%d status=%d num_iter=%d basis=%s z=%s" % (
+                1 if res.success else 0, int(res.status), int(res.num_iter), bstr, fxs(res.z))
+            line = ("C11 lemkefb n=%d M=%s q=%s d=%s maxiter=%d tolpiv=%s toldiff=%s tbuf=%s bbuf=%s zbuf=%s" % (
+                n, fxm(Mx), fxs(q), fxs(dd), mi_eff, fx(DEF_TOLS[0]), fx(DEF_TOLS[1]), fxm(prior_T),
+                ",".join(str(int(v)) for v in prior_b), fxs(prior_z)))
+            cases.append(Case(line, impl, nontrivial=True, tag="lemkefb"))
+            # 6. only the z buffer supplied (dirty copy): same requirements
+            if rng.random() < 0.4:
+                z2 = prior_z.copy() if rng.random() < 0.5 else np.full(n, np.nan)
+                r2 = lcp_lemke(Mx, q, d, z=z2, **kw)
+                if r2.z.ctypes.data != z2.ctypes.data:
+                    ctx.spec_fail("buffer_identity", "res.z is not the supplied z buffer (z= only)", rp)
+                if not np.array_equal(bits(r2.z), bits(fresh.z)) or int(r2.status) != int(fresh.status):
+                    ctx.spec_fail("buffer_dependence", "z= only: result depends on the prior content of z: %s vs %s"
+                                  % (r2.z.tolist(), fresh.z.tolist()), dict(rp, call="lcp_lemke(M, q, d, z=zbuf)"))
+                ctx.count("buffers:z-only-calls")
 
     # ---- out-of-domain covering vectors (d has zero / negative entries: documented as "must be strictly
     # positive", not checked by the code): no exception path exists; the Float instance must still follow the
